@@ -47,7 +47,9 @@ MinUtxoEv ==
     /\ LET e == Rec[l]
            sizes == mem[cur.inst]
            expected == IF e.had_mem
-                       THEN IF e.index + 1 \in DOMAIN sizes THEN MinUtxoFromSize(case.cfg, sizes[e.index + 1]) ELSE Zero
+                       \* (a remembered body that lacks the position - an optional output was dropped - is sized as if nothing were remembered)
+                       THEN IF e.index + 1 \in DOMAIN sizes THEN MinUtxoFromSize(case.cfg, sizes[e.index + 1])
+                            ELSE MinUtxoDefault(case.cfg)
                        ELSE MinUtxoDefault(case.cfg)
        IN  /\ cur' = [cur EXCEPT !.mins = Append(cur.mins, IF e.ok THEN e.result ELSE Zero)]
            /\ bad' = IF e.had_mem /\ ~HasMem     \* the code still remembers an earlier transaction
